@@ -74,7 +74,9 @@ def check(ctx, fx):
         for n, s, b in C.all_nodes(f):
             if n.get("k") == "ref" and n.get("qname") == NS + "C0_CONTROL_PERCENT_ENCODE":
                 users.setdefault(f["key"], []).append((b["id"], s))
-    allowed_q = {"ada::parser::parse_url_impl", "ada::url::parse_opaque_host", "ada::url_aggregator::parse_opaque_host"}
+    allowed_q = {"ada::parser::parse_url_impl", "ada::url::parse_opaque_host", "ada::url_aggregator::parse_opaque_host",
+                 # URLPattern's opaque-path canonicaliser (F13 fix): produces a pattern component, never part of an href
+                 "ada::url_pattern_helpers::canonicalize_opaque_pathname"}
     nref = 0
     for k, sites in users.items():
         f = fx.by_key[k]
@@ -95,7 +97,7 @@ def check(ctx, fx):
                           where=s.get("loc", "").replace("/repo/", ""))
         else:
             nref += len(sites)
-            ctx.ok("P2", "%s uses the C0 set" % q, "opaque host")
+            ctx.ok("P2", "%s uses the C0 set" % q, "opaque host / opaque pattern path")
     ctx.floor("P2", nref, 6, "references to the C0 set")
     t = fx.table("ada::unicode::is_forbidden_host_code_point_table")
     ctx.check("P2", "forbidden host code points include space", 0x20 in T.where(t, bool), "0x20 forbidden",
